@@ -45,13 +45,17 @@ fn mbx(len: u16, ty: u8, counter: u8, payload: &[u8]) -> Vec<u8> {
 
 /// A well-formed reply of some kind, then mutated.
 fn gen_reply(rng: &mut Rng, rs: usize) -> (String, Vec<u8>) {
+    gen_reply_of(rng, rs, None)
+}
+
+fn gen_reply_of(rng: &mut Rng, rs: usize, force_kind: Option<u64>) -> (String, Vec<u8>) {
     let coe = |service: u8, body: &[u8]| {
         let mut p = ((service as u16) << 12).to_le_bytes().to_vec();
         p.extend_from_slice(body);
         p
     };
     let idx = 0x2000u16.to_le_bytes();
-    let kind = rng.below(9);
+    let kind = force_kind.unwrap_or_else(|| rng.below(9));
     let (name, mut payload): (&str, Vec<u8>) = match kind {
         0 => ("expedited", coe(3, &[0x43, idx[0], idx[1], 1, 1, 2, 3, 4])),
         1 => {
@@ -189,16 +193,22 @@ fn gen_segment_session(rng: &mut Rng, rs: usize) -> Vec<(String, Vec<u8>)> {
 
 fn run_case(sh: &mut Shard, case: u64, rng: &mut Rng) {
     let session = rng.chance(1, 4);
-    let rs = if session { *rng.pick(&[16u16, 17, 24, 32, 64, 128]) } else { *rng.pick(&[6u16, 8, 10, 12, 13, 14, 15, 16, 17, 24, 32, 64, 128, 256, 1024]) };
+    // directed family: SDO information requests against tiny response mailboxes (the list-type word
+    // and the fragment data may be partly or wholly missing)
+    let info_session = !session && rng.chance(1, 6);
+    let rs = if info_session { *rng.pick(&[8u16, 10, 11, 12, 13, 14, 15, 16, 18]) } else if session { *rng.pick(&[16u16, 17, 24, 32, 64, 128]) } else { *rng.pick(&[6u16, 8, 10, 12, 13, 14, 15, 16, 17, 24, 32, 64, 128, 256, 1024]) };
     let ws = *rng.pick(&[16u16, 24, 64, 256]);
     let mut d = DeviceDesc::simple("MBX");
     d.mailbox = Some((0x1000, ws, 0x1400, rs));
     d.mailbox_protocols = MBX_COE;
     d.sms = vec![SmDesc { start: 0x1000, len: ws, control: 0x26, enable: 1, usage: 1 }, SmDesc { start: 0x1400, len: rs, control: 0x22, enable: 1, usage: 2 }];
     let nreplies = 1 + rng.usize_below(3);
-    let replies: Vec<(String, Vec<u8>)> = if session { gen_segment_session(rng, rs as usize) } else { (0..nreplies).map(|_| gen_reply(rng, rs as usize)).collect() };
+    let replies: Vec<(String, Vec<u8>)> = if info_session { (0..nreplies).map(|_| gen_reply_of(rng, rs as usize, Some(6))).collect() } else if session { gen_segment_session(rng, rs as usize) } else { (0..nreplies).map(|_| gen_reply(rng, rs as usize)).collect() };
     let refill = rng.chance(1, 4);
-    let entry = if session { 1 } else { rng.below(5) };
+    let entry = if info_session { 3 + rng.below(2) } else if session { 1 } else { rng.below(5) };
+    if info_session {
+        sh.count("family.sdo-info-tiny-mailbox");
+    }
     let entry_name = ["sdo_read_u32", "sdo_read_64", "sdo_write", "sdo_info_list", "sdo_info_quantities"][entry as usize];
     let seed = rng.u64();
     let tags: Vec<String> = replies.iter().map(|r| r.0.clone()).collect();
